@@ -268,16 +268,14 @@ func (s *Server) aofshrink() {
 			// point to the new file.
 
 			// anything below this point is unrecoverable. just log and exit process
-			// back up the live aof, just in case of fatal error
 			if err := s.aof.Close(); err != nil {
 				log.Fatalf("shrink live aof close fatal operation: %v", err)
 			}
 			if err := f.Close(); err != nil {
 				log.Fatalf("shrink new aof close fatal operation: %v", err)
 			}
-			if err := os.Rename(s.opts.AppendFileName, s.opts.AppendFileName+"-bak"); err != nil {
-				log.Fatalf("shrink backup fatal operation: %v", err)
-			}
+			// replace the live aof in one step, there must never be a moment
+			// where a restart would not find one of the two files.
 			if err := os.Rename(s.opts.AppendFileName+"-shrink", s.opts.AppendFileName); err != nil {
 				log.Fatalf("shrink rename fatal operation: %v", err)
 			}
@@ -291,8 +289,6 @@ func (s *Server) aofshrink() {
 				log.Fatalf("shrink seek end fatal operation: %v", err)
 			}
 			s.aofsz = int(n)
-
-			os.Remove(s.opts.AppendFileName + "-bak") // ignore error
 
 			return nil
 		}()
